@@ -39,10 +39,18 @@ type Type struct {
 	Fields []Type   // struct fields (scalars)
 	Names  []string // struct field names
 	Name   string   // struct type name
+	// Of, if set, makes this an array of N elements of type *Of (any type: arrays of arrays, arrays of structs)
+	Of *Type
 }
+
+// ArrayOf returns the type [n]elem.
+func ArrayOf(n int, elem Type) Type { e := elem; return Type{N: n, Of: &e} }
 
 // Bits returns the size in bits.
 func (t Type) Bits() int {
+	if t.Of != nil {
+		return t.N * t.Of.Bits()
+	}
 	if len(t.Fields) > 0 {
 		n := 0
 		for _, f := range t.Fields {
@@ -61,10 +69,20 @@ func (t Type) Bits() int {
 }
 
 // Elem returns the element type of an array.
-func (t Type) Elem() Type { e := t; e.N = 0; return e }
+func (t Type) Elem() Type {
+	if t.Of != nil {
+		return *t.Of
+	}
+	e := t
+	e.N = 0
+	return e
+}
 
 // Src prints the type.
 func (t Type) Src() string {
+	if t.Of != nil {
+		return fmt.Sprintf("[%d]%s", t.N, t.Of.Src())
+	}
 	if len(t.Fields) > 0 {
 		return t.Name
 	}
@@ -109,6 +127,13 @@ func (v Value) clone() Value {
 
 // Zero returns the zero value of a type.
 func Zero(t Type) Value {
+	if t.Of != nil {
+		v := Value{T: t}
+		for i := 0; i < t.N; i++ {
+			v.Elems = append(v.Elems, Zero(*t.Of))
+		}
+		return v
+	}
 	if len(t.Fields) > 0 {
 		v := Value{T: t}
 		for _, f := range t.Fields {
@@ -167,6 +192,13 @@ func Unflatten(t Type, bits *big.Int) Value {
 	off := 0
 	var rec func(t Type) Value
 	rec = func(t Type) Value {
+		if t.Of != nil {
+			v := Value{T: t}
+			for i := 0; i < t.N; i++ {
+				v.Elems = append(v.Elems, rec(*t.Of))
+			}
+			return v
+		}
 		if len(t.Fields) > 0 {
 			v := Value{T: t}
 			for _, f := range t.Fields {
@@ -495,41 +527,69 @@ func (s VarDecl) Exec(e *Env) (bool, []Value) { e.declare(s.Name, Zero(s.T)); re
 func (s VarDecl) Src(in string) string        { return in + "var " + s.Name + " " + s.T.Src() + "\n" }
 
 // Assign is lhs = e where lhs is a variable, arr[idx] or x.f.
+// Sel is one selector step of an assignment target: [Idx] or .Field.
+type Sel struct {
+	Idx   Expr
+	Field string
+}
+
 type Assign struct {
 	Name  string
-	Idx   Expr   // optional
-	Field string // optional
+	Idx   Expr   // optional (single step)
+	Field string // optional (single step)
+	Path  []Sel  // optional: several steps, e.g. m[i][j], ps[1].x, q.v[2] (used instead of Idx/Field)
 	X     Expr
+}
+
+func (s Assign) steps() []Sel {
+	if len(s.Path) > 0 {
+		return s.Path
+	}
+	var p []Sel
+	if s.Idx != nil {
+		p = append(p, Sel{Idx: s.Idx})
+	}
+	if s.Field != "" {
+		p = append(p, Sel{Field: s.Field})
+	}
+	return p
 }
 
 func (s Assign) Exec(e *Env) (bool, []Value) {
 	v := s.X.Eval(e)
 	dst := e.lookup(s.Name)
-	switch {
-	case s.Idx != nil:
-		i := int(s.Idx.Eval(e).P.Int64())
-		if i < 0 || i >= len(dst.Elems) {
-			panic("refsem: index out of range (generator bug)")
+	for _, st := range s.steps() {
+		if st.Idx != nil {
+			i := int(st.Idx.Eval(e).P.Int64())
+			if i < 0 || i >= len(dst.Elems) {
+				panic("refsem: index out of range (generator bug)")
+			}
+			dst = &dst.Elems[i]
+			continue
 		}
-		dst.Elems[i] = v.clone()
-	case s.Field != "":
+		found := false
 		for i, n := range dst.T.Names {
-			if n == s.Field {
-				dst.Elems[i] = v.clone()
+			if n == st.Field {
+				dst = &dst.Elems[i]
+				found = true
+				break
 			}
 		}
-	default:
-		*dst = v.clone()
+		if !found {
+			panic("refsem: field " + st.Field)
+		}
 	}
+	*dst = v.clone()
 	return false, nil
 }
 func (s Assign) Src(in string) string {
 	l := s.Name
-	if s.Idx != nil {
-		l += "[" + s.Idx.Src() + "]"
-	}
-	if s.Field != "" {
-		l += "." + s.Field
+	for _, st := range s.steps() {
+		if st.Idx != nil {
+			l += "[" + st.Idx.Src() + "]"
+		} else {
+			l += "." + st.Field
+		}
 	}
 	return in + l + " = " + s.X.Src() + "\n"
 }
